@@ -58,6 +58,36 @@ func init() {
 				o.count("rejected")
 			}
 		}
+		// "one at a time": the reference is also taken from a process that has handled nothing else — a request
+		// whose sequential answer already depends on its neighbours (a default overwritten by another request's
+		// parameters, a registry re-ordered by a rejected request) would otherwise be compared with itself
+		solo := 60
+		if thorough {
+			solo = 300
+		}
+		for i := 0; i < len(pool) && i < solo; i++ {
+			s1, err := startStdio()
+			if err != nil {
+				break
+			}
+			st, out, err := s1.ask(pool[i])
+			s1.stop()
+			if err != nil {
+				continue
+			}
+			same := st == seq[i].st && (st != 200 || bytes.Equal(bytes.TrimSpace(out), bytes.TrimSpace(seq[i].body)))
+			m := Meta{Case: i, Stage: "solo-process", Input: J{"request": bodies[i], "preceding_requests": len(pool[:i])}, Key: "solo" + string(pool[i])}
+			if !same {
+				prev := []string{}
+				for j := i - 1; j >= 0 && len(prev) < 6; j-- {
+					prev = append([]string{string(pool[j])}, prev...)
+				}
+				m.Input = J{"request": bodies[i], "preceding_request_bodies_oldest_first": prev}
+				m.GoOut = J{"alone": truncate(string(out), 1500), "after_the_others": truncate(string(seq[i].body), 1500)}
+			}
+			o.Oracle(m, same, "the response of a request handled alone in a fresh process differs from its response after other requests")
+			o.count("solo-process")
+		}
 		canonErr := func(a ans) string { // rejected requests: compare the verdict only (message may list map keys in any order)
 			if a.st == 200 {
 				return string(a.body)
